@@ -3,8 +3,11 @@ package main
 
 import (
 	"fmt"
+	"math"
+	"strconv"
 	"strings"
 
+	"github.com/lyraproj/issue/issue"
 	"github.com/lyraproj/pcore/pcore"
 	"github.com/lyraproj/pcore/px"
 	"github.com/lyraproj/pcore/types"
@@ -152,7 +155,8 @@ func build(s *lat.Spec) (t px.Type) {
 //   - the fixed chains that refuted transitivity (corpus), as ordinary direct checks;
 //   - a pool of collection types over the size ranges around and below zero: transitivity on ALL its triples, widening of
 //     either bound, and (M) Equals / IsAssignable of ALL its pairs inside the model fragment against ty_eqb / asg;
-//   - String[-1] is a sized String that does not accept what String accepts (open finding widen-negative-string-size).
+//   - String[-1] was a sized String that did not accept what String accepts (finding widen-negative-string-size, fixed b11538b:
+//     NewStringType gives String for every size with min <= 0 and no maximum); the probes stay as ordinary direct checks.
 func negativeSizeProbes(cfg *lib.Config, res *lib.Result) {
 	I, S := lat.Int(0, 9), lat.A("String")
 	chains := [][3]*lat.Spec{
@@ -325,7 +329,7 @@ func negativeSizeProbes(cfg *lib.Config, res *lib.Result) {
 		res.Count("widen.negative-size-probe")
 		if asg(a, b) && !asg(wt, b) {
 			res.Violate(lib.Violation{Clause: "widen", What: fmt.Sprintf("%s accepts %s but the wider %s does not", a, b, wt),
-				Input: map[string]interface{}{"kind": "widen", "a": S, "w": w, "b": bs}, Tags: []string{"widen-negative-string-size"}})
+				Input: map[string]interface{}{"kind": "widen", "a": S, "w": w, "b": bs}, Tags: []string{"widen:negative-size:String"}})
 		}
 	}
 }
@@ -349,14 +353,43 @@ func hasNaNBound(t *types.VerifTy) bool {
 	return false
 }
 
-// nanTag appends the tag of the open finding float-nan-bound when one of the pool types involved has a NaN bound
-func nanTag(u *lat.Universe, tags []string, is ...int) []string {
-	for _, i := range is {
-		if hasNaNBound(u.Dec[i]) {
-			return append(tags, "float-nan-bound")
+// floatNaNProbes: a Float type with a NaN bound contains nothing and does not accept itself (the former open findings
+// float-nan-bound-*). Since the fix it cannot be built: the constructor rejects a NaN bound with a reported error, and a
+// value that holds NaN infers the unbounded Float type, which accepts a copy of itself. Ordinary direct checks.
+func nanBoundRejected(lo, hi float64) (bool, string) {
+	var t px.Type
+	what := ""
+	func() {
+		defer func() {
+			if r := recover(); r != nil {
+				if _, ok := r.(issue.Reported); ok {
+					what = "reported"
+				} else {
+					what = fmt.Sprintf("escaped with %T: %v", r, r)
+				}
+			}
+		}()
+		t = types.NewFloatType(lo, hi)
+	}()
+	if what == "reported" {
+		return true, what
+	}
+	if what == "" {
+		what = fmt.Sprintf("built %s", t)
+	}
+	return false, what
+}
+
+func floatNaNProbes(res *lib.Result) {
+	nan, inf := math.NaN(), math.Inf(1)
+	for _, p := range [][2]float64{{nan, 1}, {1, nan}, {nan, nan}, {nan, inf}, {-inf, nan}, {nan, -inf}, {inf, nan}} {
+		res.Evaluations++
+		res.Count("float-nan-bound-probe")
+		if ok, what := nanBoundRejected(p[0], p[1]); !ok {
+			res.Violate(lib.Violation{Clause: "float-nan-bound-rejected", What: fmt.Sprintf("NewFloatType(%v, %v) is not rejected with a reported error: %s", p[0], p[1], what),
+				Input: map[string]interface{}{"kind": "nanbound", "lo": fmt.Sprint(p[0]), "hi": fmt.Sprint(p[1])}, Tags: []string{"float-nan-bound:constructor"}})
 		}
 	}
-	return tags
 }
 
 func trivial(u *lat.Universe, i int) bool { k := u.Dec[i].K; return k == "Any" || k == "Unit" }
@@ -392,12 +425,20 @@ func run(c px.Context, cfg *lib.Config, res *lib.Result) {
 	}
 	spec := func(i int) interface{} { return u.Specs[i] }
 
+	// ---- no Float type with a NaN bound: not from the constructor, not among the types inferred for values that hold NaN
+	floatNaNProbes(res)
+	for a := 0; a < n; a++ {
+		if hasNaNBound(u.Dec[a]) {
+			res.Violate(lib.Violation{Clause: "float-nan-bound-rejected", What: fmt.Sprintf("the pool type %s has a Float member with a NaN bound%s", u.Text[a], lat.Legend(u.Specs[a])),
+				Input: map[string]interface{}{"kind": "refl", "a": spec(a)}, Tags: []string{"float-nan-bound:pool"}})
+		}
+	}
 	// ---- reflexivity: the separately built copy, and the re-parsed text
 	for a := 0; a < n; a++ {
 		res.Evaluations++
 		if !u.Asg[a][a] {
 			res.Violate(lib.Violation{Clause: "reflexive-copy", What: fmt.Sprintf("%s does not accept a separately constructed copy of itself%s", u.Text[a], lat.Legend(u.Specs[a])),
-				Input: map[string]interface{}{"kind": "refl", "a": spec(a)}, Tags: nanTag(u, []string{"refl:" + u.Dec[a].K}, a)})
+				Input: map[string]interface{}{"kind": "refl", "a": spec(a)}, Tags: []string{"refl:" + u.Dec[a].K}})
 		}
 		var p px.Type
 		_, crash := lat.Guarded(func() bool { p = c.ParseType(u.Text[a]); return true })
@@ -440,7 +481,7 @@ func run(c px.Context, cfg *lib.Config, res *lib.Result) {
 	}
 	// ---- sizes with a negative bound: they parse (Array[String,-1,-1]) and the pool has none: fixed chains and a
 	// small pool of their own (direct checks and model tie; finding trans-negative-collection-size is fixed,
-	// widen-negative-string-size is open). Before the all-triples search: the list of recorded violations is capped,
+	// so is widen-negative-string-size). Before the all-triples search: the list of recorded violations is capped,
 	// and the by-specification finding alone can fill it
 	negativeSizeProbes(cfg, res)
 	// ---- transitivity over ALL triples
@@ -503,13 +544,13 @@ func run(c px.Context, cfg *lib.Config, res *lib.Result) {
 			v := build(vs)
 			if v != nil && !asg(v, u.R[a]) {
 				res.Violate(lib.Violation{Clause: "variant-member", What: fmt.Sprintf("%s does not accept its member %s", v, u.Text[a]),
-					Input: map[string]interface{}{"kind": "law", "law": fmt.Sprintf("variant%d", i), "a": spec(a)}, Tags: nanTag(u, []string{"variant-member:" + u.Dec[a].K}, a)})
+					Input: map[string]interface{}{"kind": "law", "law": fmt.Sprintf("variant%d", i), "a": spec(a)}, Tags: []string{"variant-member:" + u.Dec[a].K}})
 			}
 		}
 		o := build(lat.W("Optional", u.Specs[a]))
 		if o != nil && (!asg(o, u.R[a]) || !asg(o, undefT)) {
 			res.Violate(lib.Violation{Clause: "optional-accepts", What: fmt.Sprintf("%s does not accept %s or Undef", o, u.Text[a]),
-				Input: map[string]interface{}{"kind": "law", "law": "optional", "a": spec(a)}, Tags: nanTag(u, []string{"optional:" + u.Dec[a].K}, a)})
+				Input: map[string]interface{}{"kind": "law", "law": "optional", "a": spec(a)}, Tags: []string{"optional:" + u.Dec[a].K}})
 		}
 	}
 	// ---- widening a size or range never turns acceptance into rejection (on either side of the receiver)
@@ -625,6 +666,8 @@ func replay(c px.Context, cfg *lib.Config, res *lib.Result) {
 	for _, in := range lat.ReplayInputs(cfg.Replay) {
 		var x struct {
 			Kind string    `json:"kind"`
+			Lo   string    `json:"lo"`
+			Hi   string    `json:"hi"`
 			Law  string    `json:"law"`
 			Ctx  string    `json:"ctx"`
 			A    *lat.Spec `json:"a"`
@@ -639,9 +682,20 @@ func replay(c px.Context, cfg *lib.Config, res *lib.Result) {
 			res.Violate(lib.Violation{Clause: clause, What: what, Input: in})
 		}
 		switch x.Kind {
+		case "nanbound":
+			lo, _ := strconv.ParseFloat(x.Lo, 64)
+			hi, _ := strconv.ParseFloat(x.Hi, 64)
+			ok, what := nanBoundRejected(lo, hi)
+			fmt.Printf("NewFloatType(%v, %v): %s\n", lo, hi, what)
+			if !ok {
+				fail("float-nan-bound-rejected", fmt.Sprintf("NewFloatType(%v, %v) is not rejected with a reported error: %s", lo, hi, what))
+			}
 		case "refl":
 			a, a2 := x.A.Build(), x.A.Build()
 			fmt.Printf("A = %s\nIsAssignable(A, copy of A) = %v\n", a, asg(a, a2))
+			if hasNaNBound(types.VerifDecodeType(a)) {
+				fail("float-nan-bound-rejected", fmt.Sprintf("%s has a Float member with a NaN bound", a))
+			}
 			if !asg(a, a2) {
 				fail("reflexive-copy", fmt.Sprintf("%s does not accept a separately constructed copy of itself", a))
 			}
